@@ -50,7 +50,7 @@ CLAIMED = {
                   "evaluated under every interpretation of fresh operands (all BV values of the width, all Bool tuples) "
                   "against a direct Python definition of the named function",
         text="Each derived constructor / infix operator / FNode method is applied to fresh symbols, Python literals, "
-             "constant formulas, a table of compound operand shapes (n-ary products with -1 in each position, sums, "
+             "constant formulas (alone and in pairs), a table of compound operand shapes (n-ary products with -1 in each position, sums, "
              "differences, negations) and the same formula at two argument positions, in a fresh infix-enabled "
              "environment; the formula pySMT builds is evaluated by the reference semantics under every interpretation "
              "and compared with an independently written Python definition of the function the name denotes "
@@ -147,7 +147,9 @@ CLAIMED = {
         technique="bounded-exhaustive enumeration of quantifier-free formulas; for every interpretation of the input "
                   "symbols all assignments of the fresh symbols are enumerated (model-by-model equisatisfiability)",
         text="cnf, cnf_as_set, CNFizer and PolarityCNFizer on all skeletons of depth <=2 (six atom alphabets) and depth 3 "
-             "over two atoms; Ackermannizer on chains/nests of applications. Shape is checked by an independent "
+             "over two atoms, the two converter classes also in an environment that is not on top of the stack and (over "
+             "symbols named like generated ones) in brand-new environments; Ackermannizer on chains/nests of applications, "
+             "fresh and reused. Shape is checked by an independent "
              "predicate; every model of the input must extend to the fresh symbols and every model of the output must "
              "satisfy the input (for Ackermann: with function tables read off the fresh constants).",
         note="Trusted: refsem, the shape predicates and the extension search in mc/props/c11.py (Int-sorted fresh "
@@ -211,7 +213,8 @@ CLAIMED = {
              "sat/unsat) every schedule is executed on the real code; each must return the agreed verdict, a model "
              "that satisfies the assertions, or - if every member fails - an error, never a deadlock. Further configurations: "
              "members failing in their constructor / on assertion / on release, solve with assumptions, a query on which "
-             "every member fails after a successful one followed by get_model, one solver listed twice with options.",
+             "every member fails after a successful one followed by get_model, a failed one-shot query followed by solve, "
+             "a member failing with a library exception, one solver listed twice with options.",
         note="Processes are scheduler-controlled threads; kill is synchronous at IPC granularity; objects crossing "
              "queues/pipes are pickled. Silent death of every member is a known finding (needs liveness polling).",
         design="§3 C19"),
@@ -219,7 +222,7 @@ CLAIMED = {
         category="exploration", engine="workmon",
         technique="exhaustive grid operation x nestable operator x family (chain/diamond) x size with an external "
                   "work monitor counting walker callbacks, created nodes and python-level calls per distinct node",
-        text="21 operations x 49 (thorough 55) operators/argument positions x chains and diamonds at n=50/100/200, "
+        text="22 operations x 49 (thorough 55) operators/argument positions x chains and diamonds at n=50/100/200, "
              "diamonds of height 60, chains - and for five operators also diamonds (memory-copy store chains, shared "
              "sums) - of depth 5000-20000 under the default recursion limit: at most one "
              "callback per (walker, node), counters linear in the number of distinct nodes, doubling n at most doubles "
